@@ -93,7 +93,7 @@ def main(run: Run):
     s = run.seed * 1000
 
     # 1. exhaustive tiny programs: design level + every program executed on the real code
-    for pool in ["c2", "a1", "seq"] + (["c2x"] if thorough else []):
+    for pool in ["alias", "a1", "seq", "c2"] + (["c2x"] if thorough else []):
         behs = tiny(run, pool, w)
         judge(run, WB, behs, "tiny-" + pool, conf=CONF if thorough else None)
 
